@@ -59,6 +59,7 @@ type Step struct {
 	Src string `json:"src"`
 	D   string `json:"d"`
 	S   string `json:"s"`
+	How string `json:"how"` // remote level: how the delivery ends (End)
 }
 
 type Behaviour struct {
@@ -66,6 +67,7 @@ type Behaviour struct {
 	Cfg   Cfg    `json:"cfg"`
 	Dual  bool   `json:"dual"`  // every configured scope gets a second, looser semaphore in front
 	Probe bool   `json:"probe"` // probe "N permits can be acquired" after the script
+	Reuse int    `json:"reuse"` // remote level: conn_reuse_limit (0 = the default of 10)
 	Hist  []Step `json:"hist"`
 }
 
@@ -145,6 +147,83 @@ type run struct {
 	mu  sync.Mutex
 	cl  map[string]*client
 	nfl int
+
+	// yield point (see installYield)
+	gate   chan struct{}
+	gateOf string // caller parked at gate
+	noPark bool
+	gor    map[string]string // goroutine id -> caller running in it
+}
+
+func goid() string {
+	var buf [64]byte
+	f := strings.Fields(string(buf[:runtime.Stack(buf[:], false)]))
+	if len(f) > 1 {
+		return f[1]
+	}
+	return ""
+}
+
+// enter registers the calling goroutine as the one running caller m's call.
+func (r *run) enter(m string) {
+	r.mu.Lock()
+	if r.gor == nil {
+		r.gor = map[string]string{}
+	}
+	r.gor[goid()] = m
+	r.mu.Unlock()
+}
+
+// installYield adds one scheduling dimension: whenever a bucket limiter is constructed
+// while the set-wide mutex is NOT held (a window in which a concurrent Take of the same
+// new key would not see the bucket), the constructing caller is parked there until the
+// next scripted step has been issued and has settled - so the next caller runs inside the
+// window.  When the constructor runs under the mutex (the design) nothing is ever parked
+// and the hook has no effect on the history.
+func (r *run) installYield() {
+	r.g.VerifHookNew(func(scope string, lockFree bool) {
+		if !lockFree {
+			return
+		}
+		r.mu.Lock()
+		if r.noPark || r.gate != nil {
+			r.mu.Unlock()
+			return
+		}
+		m := r.gor[goid()]
+		if m == "" { // not one of the scripted callers' goroutines
+			r.mu.Unlock()
+			return
+		}
+		gate := make(chan struct{})
+		r.gate, r.gateOf = gate, m
+		r.mu.Unlock()
+		r.tr.Emit("Yield", vtrace.Ev{"s": scope, "m": m})
+		<-gate
+	})
+}
+
+// parked returns the gate of the caller parked by an earlier step (nil if none).
+func (r *run) parked() chan struct{} {
+	r.mu.Lock()
+	defer r.mu.Unlock()
+	return r.gate
+}
+
+// resume lets the caller parked at gate go on and waits until everything has settled.
+func (r *run) resume(gate chan struct{}) {
+	if gate == nil {
+		return
+	}
+	r.mu.Lock()
+	m := r.gateOf
+	if r.gate == gate {
+		r.gate = nil
+	}
+	r.mu.Unlock()
+	r.tr.Emit("Resume", vtrace.Ev{"m": m})
+	close(gate)
+	synctest.Wait()
 }
 
 func (r *run) client(m string) *client {
@@ -172,11 +251,14 @@ func classifyPanic(p interface{}) string {
 // call starts one API call of caller m in its own goroutine and waits until every
 // goroutine of the bubble has returned or is durably blocked.
 func (r *run) call(c *client, op, ip, src, d string) {
+	prev := r.parked()
+	defer func() { r.resume(prev) }()
 	r.mu.Lock()
 	c.pending, c.op = true, op
 	r.mu.Unlock()
 	r.tr.Emit("Call", vtrace.Ev{"m": c.name, "op": op, "ip": ip, "src": src, "d": d})
 	go func() {
+		r.enter(c.name)
 		res, detail := "ok", ""
 		defer func() {
 			if p := recover(); p != nil {
@@ -318,12 +400,14 @@ func (r *run) skip(st Step, why string) {
 }
 
 func (r *run) tick() {
+	r.resume(r.parked())
 	r.tr.Emit("Tick", nil)
 	time.Sleep(2500 * time.Millisecond)
 	r.snap("Snap")
 }
 
 func (r *run) minute() {
+	r.resume(r.parked())
 	r.tr.Emit("Minute", nil)
 	time.Sleep(61 * time.Second)
 	r.snap("Snap")
@@ -342,6 +426,15 @@ func (r *run) anyHolder() bool {
 
 // fill takes and releases never-seen keys until the table of the scope holds mb+1 buckets.
 func (r *run) fill(scope string) {
+	r.resume(r.parked())
+	r.mu.Lock()
+	r.noPark = true // the bulk runs in the controller goroutine
+	r.mu.Unlock()
+	defer func() {
+		r.mu.Lock()
+		r.noPark = false
+		r.mu.Unlock()
+	}()
 	st := r.g.VerifScopeState(scope, nil)
 	n := r.b.Cfg.MB + 1 - st.Len
 	if n <= 0 {
@@ -468,6 +561,7 @@ func (r *run) step(st Step) {
 // endDeliveries: every delivery ends - waiting calls run into their time-out,
 // holders release what they hold (domains first, as remoteDelivery.Close does).
 func (r *run) endDeliveries() {
+	r.resume(r.parked())
 	for i := 0; i < 3 && len(r.pendingNames()) > 0; i++ {
 		r.tick()
 	}
@@ -599,6 +693,7 @@ func runBehaviour(t *testing.T, b Behaviour, w *bufio.Writer) {
 			t.Fatalf("behaviour %d: cannot build limits group: %v", b.ID, err)
 		}
 		r := &run{t: t, b: b, g: g, tr: tr, cl: map[string]*client{}}
+		r.installYield()
 		for _, st := range b.Hist {
 			r.step(st)
 		}
@@ -614,8 +709,9 @@ func runBehaviour(t *testing.T, b Behaviour, w *bufio.Writer) {
 				r.probe()
 			}
 		}
-		for i := 0; i < 3 && len(r.pendingNames()) > 0; i++ {
-			r.tick()
+		// a caller that was parked late (yield point) may still hold something
+		for i := 0; i < 3 && (r.parked() != nil || len(r.pendingNames()) > 0); i++ {
+			r.endDeliveries()
 		}
 		r.snap("Quiesced")
 	})
